@@ -43,6 +43,7 @@ func (l *lineWriter) Write(b []byte) (int, error) {
 func (l *lineWriter) Flush() error {
 	if l.line.Len() != 0 {
 		l.events.Print(l.label, l.line.String())
+		l.line.Reset()
 	}
 	return nil
 }
